@@ -280,11 +280,17 @@ pub fn skeletons(out: &mut String) {
     let schematic = Shape { nested: vec![false, true, false] };
     let others = [vec![false], vec![true], vec![true, false], vec![false, false], vec![false, false, true, true, false], vec![true, true], vec![false, true, false, true]];
     let base = gen_fns(&schematic);
-    let other_fns: Vec<(Shape, BTreeMap<String, Vec<String>>)> = others.iter().map(|n| {
+    // a generator that panics on one of the validation shapes (a supported struct!) must not take the translator down:
+    // every template is then reported as not validated for that shape
+    let hook = std::panic::take_hook();
+    std::panic::set_hook(Box::new(|_| {}));
+    let other_fns: Vec<(Shape, Option<BTreeMap<String, Vec<String>>>)> = others.iter().map(|n| {
         let sh = Shape { nested: n.clone() };
-        let m = gen_fns(&sh).into_iter().map(|g| { let mut v = vec![]; toks(g.body, &mut v); (g.key, v) }).collect();
+        let sh2 = sh.clone();
+        let m = std::panic::catch_unwind(move || gen_fns(&sh2).into_iter().map(|g| { let mut v = vec![]; toks(g.body, &mut v); (g.key, v) }).collect::<BTreeMap<_, _>>()).ok();
         (sh, m)
     }).collect();
+    std::panic::set_hook(hook);
     writeln!(out, "import Soa.Model.SkelSyntax\n-- generated by /verif/extract (skel.rs) from the generator sources in /repo/soa-derive-internal/src; do not edit").unwrap();
     writeln!(out, "/-! shape-generic templates of every generated function: recovered from the code generated for the schematic struct\n    (leaf, nested, leaf) and validated by instantiating them for {} other struct shapes and comparing, token by token,\n    with what the real generators emit for those shapes -/", others.len()).unwrap();
     writeln!(out, "namespace Soa.Extracted\nopen Soa.Sk\n").unwrap();
@@ -300,9 +306,12 @@ pub fn skeletons(out: &mut String) {
         if render(&tm, &schematic) != real { why = "template does not reproduce the schematic instance".into(); }
         for (sh, fns) in &other_fns {
             if !why.is_empty() { break; }
-            match fns.get(&g.key) {
-                Some(r) => if &render(&tm, sh) != r { why = format!("not uniform: shape {:?} is generated differently", sh.nested); },
-                None => why = format!("function missing for shape {:?}", sh.nested),
+            match fns {
+                None => why = format!("the generator panics on the struct shape {:?}", sh.nested),
+                Some(fns) => match fns.get(&g.key) {
+                    Some(r) => if &render(&tm, sh) != r { why = format!("not uniform: shape {:?} is generated differently", sh.nested); },
+                    None => why = format!("function missing for shape {:?}", sh.nested),
+                }
             }
         }
         // parameters by position
